@@ -1,0 +1,26 @@
+//! Read access to the subscriber tree (verification hook, cargo feature `verif`).
+
+use super::*;
+
+impl Subscribers {
+    /// ids of all subscribers in the tree with the pattern (= path) they are stored under
+    pub(crate) fn verif_subscribers(&self) -> Vec<(SubscriptionId, Vec<KeySegment>, Vec<KeySegment>)> {
+        fn walk(
+            node: &Node,
+            path: &mut Vec<KeySegment>,
+            out: &mut Vec<(SubscriptionId, Vec<KeySegment>, Vec<KeySegment>)>,
+        ) {
+            for s in &node.subscribers {
+                out.push((s.id.clone(), path.clone(), s.pattern.clone()));
+            }
+            for (segment, child) in &node.tree {
+                path.push(segment.clone());
+                walk(child, path, out);
+                path.pop();
+            }
+        }
+        let mut out = Vec::new();
+        walk(&self.data, &mut Vec::new(), &mut out);
+        out
+    }
+}
